@@ -293,8 +293,8 @@ func runC02x(c c02Case) (*vstat.Failure, c02Res) {
 	}
 	for i, l := range c.Lines {
 		eo, eu := hx.RuntimeErrors("c02opt.mtail"), hx.RuntimeErrors("c02raw.mtail")
-		vO.ProcessLogLine(nil, hx.Line("f", l))
-		vU.ProcessLogLine(nil, hx.Line("f", l))
+		hx.Run(vO, "f", l)
+		hx.Run(vU, "f", l)
 		a, b := dumpReal(objO), dumpReal(objU)
 		if a != init {
 			res.changed = true
